@@ -70,11 +70,21 @@ def predict (name : String) (sc : List Lie) (arg : Nat) : Option (Res String) :=
 def kvOf (ws : List String) (k : String) : Option String :=
   (ws.find? (·.startsWith (k ++ "="))).map fun w => (w.drop (k.length + 1)).toString
 
+/-- C01 (under the adversary of C17): `Extend<u8>` / `FromIterator<u8>` append exactly the items the
+iterator yields, whatever its `size_hint` claims (the harness compares the four destinations with
+the items it counted itself and prints the four lengths) -/
+def extendOracle (caseName outcome : String) : Option String :=
+  if caseName.startsWith "extend_n=" && outcome != "panic" then
+    let n := String.ofList (((caseName.drop 9).toString.toList).takeWhile Char.isDigit)
+    if outcome == s!"len_{n}_{n}_{n}_{n}_same=1" then none
+    else some s!"Extend/FromIterator_with_a_wrong_size_hint_did_not_append_exactly_the_{n}_items_the_iterator_yielded_({outcome})"
+  else none
+
 def step (s : JS) (line : String) : IO JS := do
   match words line with
   | "adv-try" :: ws =>
     let s ← match s.pending with
-      | some c => emit s true s!"oracle-fail {if c.startsWith "extend" || c.startsWith "iterpanic" then "C17+C04" else "C17"} what=process_died_or_no_verdict_for_case case={c.replace " " "~"}"
+      | some c => emit s true s!"oracle-fail {if c.startsWith "extend" || c.startsWith "iterpanic" then "C17+C04+C02" else "C17"} what=process_died_or_no_verdict_for_case case={c.replace " " "~"}"
       | none => pure s
     return { s with pending := some (String.intercalate " " ws) }
   | ["adv-neighbour-overwritten"] =>
@@ -87,10 +97,13 @@ def step (s : JS) (line : String) : IO JS := do
     let s := { s with cases := s.cases + 1, pending := none,
                       okN := if outcome == "panic" then s.okN else s.okN + 1, panicN := if outcome == "panic" then s.panicN + 1 else s.panicN }
     -- misbehaving iterators into Extend / FromIterator for BytesMut: an allocator violation there is also "a BytesMut's region
-    -- stays inside its allocation" (C04)
-    let tag := if (case.headD "").startsWith "extend" || (case.headD "").startsWith "iterpanic" then "C17+C04" else "C17"
+    -- stays inside its allocation" (C04) and "never frees twice, also in calls that panic" (C02)
+    let tag := if (case.headD "").startsWith "extend" || (case.headD "").startsWith "iterpanic" then "C17+C04+C02" else "C17"
     let s ← if kvOf rest "ledger" != some "ok" then
         emit s true s!"oracle-fail {tag} what=allocator_oracle_violation_({(kvOf rest "ledger").getD "?"}) case={caseS}" else pure s
+    let s ← match extendOracle (case.headD "") outcome with
+      | some msg => emit s true s!"oracle-fail C01+C17 what={msg} case={caseS}"
+      | none => pure s
     let s ← if outcome.startsWith "OOB-READ" then
         emit s true s!"oracle-fail C17 what=bytes_from_outside_the_slices_the_owner_answered_with_reached_the_caller_(out-of-bounds_read) case={caseS}" else pure s
     let s ← if kvOf rest "leak" != some "0" then
@@ -134,7 +147,7 @@ def run : IO UInt32 := do
   let stdin ← IO.getStdin
   let s ← foldLines stdin ({} : JS) step
   let s ← match s.pending with
-    | some c => emit s true s!"oracle-fail {if c.startsWith "extend" || c.startsWith "iterpanic" then "C17+C04" else "C17"} what=process_died_or_no_verdict_for_case case={c.replace " " "~"}"
+    | some c => emit s true s!"oracle-fail {if c.startsWith "extend" || c.startsWith "iterpanic" then "C17+C04+C02" else "C17"} what=process_died_or_no_verdict_for_case case={c.replace " " "~"}"
     | none => pure s
   let s ← if !s.ended then emit s false "bad-trace ADV stream-ended-without-advend" else pure s
   for (cat, n) in s.printed do
